@@ -2,9 +2,10 @@
 from fvsym.engine import Ob
 from fvsym.rt import *  # noqa
 from fvsym import xforms
+from fvsym.rt import _subtree_value_names
 
 BOUNDS = {
-    "quick": "coordinate-symbolic family on skeletons [2,1], [1,1], [1,0], [0,1], [] (depth 2) and [[1]], [[1],[0]] (depth 3) inside authoritative shapes: flattenRanks "
+    "quick": "coordinate-symbolic family on skeletons [2,1], [1,1], [1,0], [0,1], [] (depth 2) and [[1]], [[1,0]] (depth 3) inside authoritative shapes: flattenRanks "
              "(tuple, pair, linear) at depth 0/1 and 1-2 levels, flatten->unflatten, mergeRanks (absolute, relative; colliding points summed), swapRanks and its inverse, "
              "split->flatten(absolute) round trip, updateCoords (c+o, o-c) and updatePayloads (p+w) at every depth; value-symbolic family: swizzleRanks over all "
              "permutations of 2x2 and 2x2x2 boxes built with explicit zeros / all-zero rows",
@@ -34,7 +35,9 @@ def xform(sk, *xs):
     name, opt, d = sk["xf"], sk["opt"], sk["depth"]
     S = sk["S"]
     if sk.get("box"):
-        f, pos = build_box(sk["box"], xs)
+        nsym = box_size(sk["box"]) - len(sk.get("fixed") or [])
+        f, pos = build_box(sk["box"], list(xs[:nsym]) + list(sk.get("fixed") or []))
+        pos = nsym
     else:
         f, pos, _ = build_tree(sk["tree"], xs)
     ids = rank_ids_for(d)
@@ -95,16 +98,19 @@ def xform(sk, *xs):
         from fvsym.props.c03 import flat
         f0 = flat(t.getRoot())
         f1 = flat(r.getRoot())
-        if f1 != [(pt, v + a[0]) for pt, v in f0]:
-            return fail("updatePayloads: stored leaves differ from p + w")
+        if f1 != [(pt, (v + a[0]) if v != 0 else v) for pt, v in f0]:
+            return fail("updatePayloads: stored non-default leaves differ from p + w (explicit defaults are skipped)")
     if wf(r.getRoot()) < 0:
         return fail("%s: result not well-formed" % name)
     if not mirror(r):
         return False
-    if name in ("flatten_unflatten", "swap_swap", "split_flatten"):
+    if name == "split_flatten":
+        if not (r.getRoot() == t.getRoot()):
+            return fail("split then flatten(absolute) does not restore the original content")
+    if name in ("flatten_unflatten", "swap_swap"):
         if not (r == t):
             return fail("%s: inverse does not restore an equal tensor" % name)
-        if name != "swap_swap" and r.getRankIds() != t.getRankIds():
+        if name == "flatten_unflatten" and r.getRankIds() != t.getRankIds():
             return fail("%s: rank ids not restored" % name)
     if name == "swizzleRanks":
         perm = opt["perm"]
@@ -117,9 +123,9 @@ def xform(sk, *xs):
     return True
 
 
-def _mk(tree, name, opt, box=None, S=4, noshape=False):
+def _mk(tree, name, opt, box=None, S=4, noshape=False, fixed=None):
     if box:
-        ps = names("v", box_size(box))
+        ps = names("v", box_size(box) - len(fixed or []))
         pre = []
         d = len(box)
     else:
@@ -133,8 +139,16 @@ def _mk(tree, name, opt, box=None, S=4, noshape=False):
     if name == "updateCoords_dec":
         pre = pre + ["%d <= p0" % S]
     label = name + "(" + ",".join("%s=%s" % kv for kv in sorted(opt.items())) + ")"
-    return Ob("%s%s/%s" % ("noshape/" if noshape else "", str(box or tree).replace(" ", ""), label.replace(" ", "")), "xform",
-              dict(tree=tree, xf=name, opt=opt, depth=d, box=box, S=S, noshape=noshape), ps + an, pre)
+    ob = Ob("%s%s/%s" % ("noshape/" if noshape else "", str(box or tree).replace(" ", ""), label.replace(" ", "")), "xform",
+            dict(tree=tree, xf=name, opt=opt, depth=d, box=box, S=S, noshape=noshape, fixed=fixed), ps + an, pre)
+    if fixed:
+        ob.name += "/fixed" + "".join(map(str, fixed))
+    if not box and opt.get("depth", 0) >= 1 and name != "updateCoords_inc" and name != "updateCoords_dec":
+        ob.tags["alldefault_sub"] = alldefault_sub_expr(tree, ps)
+    if not box and noshape and name == "flatten_unflatten":
+        vals = _subtree_value_names(tree, ps)[0]
+        ob.tags["all_default"] = " and ".join("%s == 0" % v for v in vals) if vals else "True"
+    return ob
 
 
 def xf2(tier):
@@ -160,14 +174,18 @@ def obligations(tier):
     for tree in t2:
         for name, opt in xf2(tier):
             obs.append(_mk(tree, name, opt))
-    t3 = [[[1]], [[1], [0]]] if q else [[[1]], [[1], [0]], [[1, 1]], [[1], [1]], [[2]], [[]]]
+    t3 = [[[1]], [[1, 0]]] if q else [[[1]], [[1], [0]], [[1, 1]], [[1], [1]], [[2]], [[]]]
     for tree in t3:
         for name, opt in xf3(tier):
             obs.append(_mk(tree, name, opt))
     for perm in itertools.permutations(range(2)):
         obs.append(_mk(None, "swizzleRanks", {"perm": list(perm)}, box=[2, 2], S=2))
     for perm in itertools.permutations(range(3)):
-        obs.append(_mk(None, "swizzleRanks", {"perm": list(perm)}, box=[2, 2, 2], S=2))
+        if q:
+            obs.append(_mk(None, "swizzleRanks", {"perm": list(perm)}, box=[2, 2, 2], S=2, fixed=[5, 0, 0, 7]))
+            obs.append(_mk(None, "swizzleRanks", {"perm": list(perm)}, box=[2, 2, 2], S=2, fixed=[0, 0, 3, 0]))
+        else:
+            obs.append(_mk(None, "swizzleRanks", {"perm": list(perm)}, box=[2, 2, 2], S=2))
     if not q:
         for perm in itertools.permutations(range(3)):
             obs.append(_mk(None, "swizzleRanks", {"perm": list(perm)}, box=[3, 2, 2], S=3))
